@@ -209,7 +209,7 @@ func TestVerif_C07(t *testing.T) {
 				r.Count("bitflips", 1)
 			}
 			// random multi-byte modifications, truncations
-			for k := 0; k < r.Pick(150, 1300); k++ {
+			for k := 0; k < r.Pick(150, 5000); k++ {
 				mod := append([]byte{}, gp.first...)
 				touched := false
 				nb := 1 + rng.IntN(5)
